@@ -132,6 +132,10 @@ type H[T signal.SignalTypes] struct {
 	name    string
 	convDst []convDst[T]
 	convSrc []convSrc[T]
+	// convSame converts between two buffers of this element type (used with a
+	// read-only window of the shared buffer as source and a writer's own
+	// window of the same buffer as destination).
+	convSame func(src, dst *signal.Buffer[T]) int
 }
 
 type runner interface {
@@ -144,7 +148,7 @@ type runner interface {
 func (h *H[T]) Name() string { return h.name }
 
 func floatH[T constraints.Float](name string) runner {
-	return &H[T]{name: name,
+	return &H[T]{name: name, convSame: signal.FloatAsFloat[T, T],
 		convDst: []convDst[T]{
 			mkDst[float32, T]("FloatAsFloat[float32,T]", signal.FloatAsFloat[float32, T]),
 			mkDst[float64, T]("FloatAsFloat[float64,T]", signal.FloatAsFloat[float64, T]),
@@ -168,7 +172,7 @@ func floatH[T constraints.Float](name string) runner {
 }
 
 func signedH[T constraints.Signed](name string) runner {
-	return &H[T]{name: name,
+	return &H[T]{name: name, convSame: signal.SignedAsSigned[T, T],
 		convDst: []convDst[T]{
 			mkDst[float32, T]("FloatAsSigned[float32,T]", signal.FloatAsSigned[float32, T]),
 			mkDst[float64, T]("FloatAsSigned[float64,T]", signal.FloatAsSigned[float64, T]),
@@ -192,7 +196,7 @@ func signedH[T constraints.Signed](name string) runner {
 }
 
 func unsignedH[T constraints.Unsigned](name string) runner {
-	return &H[T]{name: name,
+	return &H[T]{name: name, convSame: signal.UnsignedAsUnsigned[T, T],
 		convDst: []convDst[T]{
 			mkDst[float32, T]("FloatAsUnsigned[float32,T]", signal.FloatAsUnsigned[float32, T]),
 			mkDst[float64, T]("FloatAsUnsigned[float64,T]", signal.FloatAsUnsigned[float64, T]),
